@@ -43,6 +43,13 @@ def run(ctx):
         g["opts"] = {"writers": True, "reparse": True}
         g["ops"] = g["ops"][:9]
         send.append(g)
+    # the same executions through a predictor that was serialised and deserialised (self-produced bytes)
+    ser = []
+    for d in send:
+        if "preds" in d and (d["id"] % 3 == 0 or d["preds"][0].get("tags")):
+            e = dict(d, id=4 * 10 ** 6 + len(ser), preds=[dict(p, serde=True, trail=[7]) for p in d["preds"]])
+            ser.append(e)
+    send += ser[:: max(1, len(ser) // (500 if ctx.quick else 5000))]
     # filters on class-rich texts with every label (grapheme / line-break / type filters use unchecked indexing)
     fl = C15.gen(ctx, "c18-filters", [97, 769, 8205, 128104, 127471, 13, 10, 12354], {1, 2}, 4 if ctx.quick else 5, ["G", "L", "H"])
     for c in fl[:: max(1, len(fl) // (700 if ctx.quick else 5000))]:
